@@ -125,6 +125,9 @@ STDOUT_SCRIPTS = [
     ("s SATISFIABLE\nv -3 2 0\n\nv -1 0\n", (True, [-1, 2, -3])),
     ("c x\ns UNSATISFIABLE\n", (False, None)),
     ("v 1 -2\nc statistics in between\nv 3 0\nc more\ns SATISFIABLE\n", (True, [1, -2, 3])),
+    ("s SATISFIABLE\nv 9 10 0\n", (True, [9, 10])),
+    ("s SATISFIABLE\nv -20 1 0\nv 30 0\n", (True, [1, -20, 30])),
+    ("s SATISFIABLE\nv 1 -2 0 \n", (True, [1, -2])),
     ("s SATISFIABLE\n", (True, [])),
     ("s SATISFIABLE\nv 0\n", (True, [])),
     ("s UNSATISFIABLE\nv 1 0\n", (False, None)),
@@ -136,6 +139,7 @@ STDOUT_SCRIPTS = [
 FILE_SCRIPTS = [
     ("SAT\n1 -2 3 0\n", (True, [1, -2, 3])),
     ("SAT\n-3 2 -1 0\n", (True, [-1, 2, -3])),
+    ("SAT\n-10 20 0\n", (True, [-10, 20])),
     ("UNSAT\n", (False, None)),
     ("SAT\n0\n", (True, [])),
     ("SAT\n", (True, [])),
@@ -233,6 +237,9 @@ def semantic_sat_solve(prog):
     cases = [
         (["notaformula", None, None], {}, ("raises", "TypeError")),
         ([FakeF(), "minisat", "nosuchsolver"], {}, ("raises", "ValueError")),
+        ([FakeF(), None, "nosuchsolver"], {}, ("raises", "ValueError")),
+        ([FakeF(), "  ", "nosuchsolver"], {"installed": []}, ("raises", "ValueError")),
+        ([FakeF(), "", "nosuchsolver"], {}, ("raises", "ValueError")),
         ([FakeF(), "mysolver -x", None], {"installed": ["mysolver"]}, ("raises", "RuntimeError")),
         ([FakeF(), "minisat", None], {"installed": []}, ("raises", "RuntimeError")),
         ([FakeF(), None, None], {"installed": []}, ("raises", "RuntimeError")),
